@@ -39,7 +39,7 @@ TABLE = {
 
 
 def run(ctx):
-    for fn in (r1_preprocessing, r2_consume_emit, r3_transitions, r3b_prompt_is_source, r3c_blank_line_tests, r4_grouping, r5_group_buffers, r6_line_counter):
+    for fn in (r1_preprocessing, r2_consume_emit, r3_transitions, r3b_prompt_is_source, r3c_blank_line_tests, r4_grouping, r5_group_buffers, r6_line_counter, r1b_common_indentation_of_one_line):
         ctx.rep.rule(fn, ctx)
 
 
@@ -705,11 +705,45 @@ def r6_line_counter(ctx):
             rep.ob('C13.R6', ctx.loc(f, n.ast), ctx.src(n.ast), ok, 'number of lines of the text group' if ok else 'the increment for a text group is not len(group)', anchor=PKG)
 
 
+def r1b_common_indentation_of_one_line(ctx):
+    """the common indentation is the minimum over the non-blank lines -- also when there is exactly ONE (a docstring or google block whose only
+    indented line is one line of prose): the emptiness guard in front of min(...) must be true for a list of length 1 and false for length 0"""
+    rep = ctx.rep
+    f = ctx.func('xdoctest.parser._min_indentation')
+    g = ctx.cfg(f)
+    dom = ctx.dom(g, g.entry)
+    mins = [(n, c) for n in g.nodes if not n.dup for c in node_calls(n) if is_name(c.func, 'min') and c.args]
+    need(mins, 'C13.R1b: min(...) not found in _min_indentation')
+    for (n, c) in mins:
+        if any(k.arg == 'default' for k in c.keywords):
+            rep.ob('C13.R1b', ctx.loc(f, c), ctx.src(c), True, 'min with a default: defined for every number of lines', nontrivial=False, anchor=f.qualname)
+            continue
+        lst = ctx.src(c.args[0])
+        facts = [fa for fa in graph.guard_facts(dom, n) if fa.polarity in (True, False) and isinstance(fa.expr, ast.AST)]
+        verdict = None
+        for fa in facts:
+            e = fa.expr
+            if isinstance(e, ast.Name) and e.id == lst:
+                verdict = fa.polarity is True
+            if isinstance(e, ast.Compare) and len(e.ops) == 1 and isinstance(e.left, ast.Call) and is_name(e.left.func, 'len') and e.left.args and ctx.src(e.left.args[0]) == lst \
+                    and isinstance(e.comparators[0], ast.Constant) and isinstance(e.comparators[0].value, int):
+                c0, op = e.comparators[0].value, type(e.ops[0])
+                tv = lambda v: {ast.Gt: v > c0, ast.GtE: v >= c0, ast.Lt: v < c0, ast.LtE: v <= c0, ast.Eq: v == c0, ast.NotEq: v != c0}[op]
+                verdict = (tv(1) == fa.polarity) and (tv(0) != fa.polarity) and (tv(2) == fa.polarity)
+        need(verdict is not None, 'C13.R1b: the guard of %s was not recognised' % ctx.src(c))
+        rep.ob('C13.R1b', ctx.loc(f, c), '%s under %s' % (ctx.src(c), fmt_facts(facts)), verdict,
+               'taken for one or more non-blank lines, never for none' if verdict else
+               'with exactly one non-blank line the minimum is not taken (the common indentation is reported as 0): that line keeps its margin, so the text part is not the de-indented docstring line',
+               anchor=f.qualname)
+
+
 # ---------------------------------------------------------------------------
 from ..selftest import fire, silent      # noqa: E402
 
 PA = 'xdoctest/parser.py'
 VARIANTS = [
+    fire('single-line-not-deindented', 'C13.R1b', ('xdoctest/parser.py', "    if len(indents) > 0:\n        return min(indents)\n", "    if len(indents) > 1:\n        return min(indents)\n")),
+    silent('min-indentation-truthiness-guard', ('xdoctest/parser.py', "    if len(indents) > 0:\n        return min(indents)\n", "    if indents:\n        return min(indents)\n")),
     fire('blank-test-on-cut-line', 'C13.R3c', (PA, "                if len(strip_line) == 0:\n                    curr_state = TEXT\n", "                if len(norm_line) == 0:\n                    curr_state = TEXT\n")),
     fire('prompt-after-want-tested-at-old-column', 'C13.R3b', (PA, "                elif _hasprefix(line.strip(), ('>>>',)):\n", "                elif _hasprefix(norm_line, ('>>>',)):\n")),
     fire('P4-drop-expandtabs', 'C13.R1', (PA, "        string = string.expandtabs()\n", "")),
